@@ -6,7 +6,7 @@ Driver/Pda.lean — commands for C02 (pushdown automata), core only.
            other integers are foreign names; mode is the acceptance-mode literal itself
   entry := p |push| y…                      (DPDA)
          | |set| (p |push| y…)…             (NPDA)
-  runs  := k (fuel |w| c…)ᵏ
+  runs  := k (fuel cap |w| c…)ᵏ            (cap: level-size budget of NPDA runs, see `NPDA.guardedRun`)
 
   NPDA_RUN <npda> <runs>      → valid <res> runs k (levels n (m cfg…)ⁿ out <o> read <r> acc <a>)ᵏ
   DPDA_RUN <dpda> <runs>      → valid <res> runs k (trace n cfg…ⁿ out <o> read <r> acc <a>)ᵏ
@@ -51,10 +51,11 @@ def table {τ : Type} (entry : P τ) : P (Table Int Int Int τ) := do
 def dpda : P (DPDA Int Int Int) := table push
 def npda : P (NPDA Int Int Int) := table (many push)
 
-def runs : P (List (Nat × List Int)) := many do
+def runs : P (List (Nat × Nat × List Int)) := many do
   let f ← nat
+  let cap ← nat
   let w ← word
-  pure (f, w)
+  pure (f, cap, w)
 
 def showCfg (c : Config Int Int Int) : String :=
   " ".intercalate [toString c.state, showInts c.input, showInts c.stack]
@@ -82,19 +83,19 @@ def npdaRun : P String := do
   let M ← npda
   let rs ← runs
   pure (" ".intercalate ["valid", showRes (fun _ => "") M.validate, "runs",
-    showList (fun (fw : Nat × List Int) => showNRun (M.readStepwise fw.1 fw.2)) rs])
+    showList (fun (fw : Nat × Nat × List Int) => showNRun (M.guardedReadStepwise fw.2.1 fw.1 fw.2.2)) rs])
 
 def dpdaRun : P String := do
   let M ← dpda
   let rs ← runs
   pure (" ".intercalate ["valid", showRes (fun _ => "") M.validate, "runs",
-    showList (fun (fw : Nat × List Int) => showDRun (M.readStepwise (fun _ => true) fw.1 fw.2)) rs])
+    showList (fun (fw : Nat × Nat × List Int) => showDRun (M.readStepwise (fun _ => true) fw.1 fw.2.2)) rs])
 
 def dpdaLiftRun : P String := do
   let M ← dpda
   let rs ← runs
   pure (" ".intercalate ["valid", showRes (fun _ => "") M.lift.validate, "runs",
-    showList (fun (fw : Nat × List Int) => showNRun (M.lift.readStepwise fw.1 fw.2)) rs])
+    showList (fun (fw : Nat × Nat × List Int) => showNRun (M.lift.guardedReadStepwise fw.2.1 fw.1 fw.2.2)) rs])
 
 def handle (cmd : String) (args : List String) : Except String String :=
   match cmd with
